@@ -270,6 +270,9 @@ pub fn weight_scale(name: &str) -> Embedding {
         "W2" => Embedding { name: "W2", a: 0.0, b: p2(18) },
         // far below any absolute epsilon (C16: NaN only when the total weight IS zero)
         "W3" => Embedding { name: "W3", a: 0.0, b: p2(-70) },
+        // not a power of two (weights 0.1, 0.30000000000000004): for comparisons of two real
+        // executions only (C18)
+        "W4" => Embedding { name: "W4", a: 0.0, b: 0.1 },
         // with the weight map: {0, 2^-19, 2^19} = {0, 1.9e-6, 5.2e5}
         "WX" => Embedding { name: "WX", a: 0.0, b: p2(-19) },
         _ => panic!("unknown weight scale {name}"),
